@@ -16,6 +16,12 @@ CLAIMED = {
          "Seeded search over queue parameters (1-3 hops; bandwidth 0 or 1 kB/s-1 GB/s; latency 0-10 s; any capacity) and arrival processes (singles, same-instant bursts, sustained overload, arrivals placed exactly on predicted departures, all packet types) injected into real sim::queue objects; the per-queue departure log from probe sinks is compared with leave=max(prev,arrive+latency)+floor(size*1e9/bw) to +-1 ns, FIFO order and the end-to-end lower bound.", "3.9"),
  "C10": ("queue", "exploration", "deterministic simulation: seeded overload bursts into real queues, shadow byte account and conservation from probe logs",
          "Same workloads as C09; a shadow byte account per queue decides for every arrival whether it must be tail-dropped; every arrival is matched with exactly one departure (identical packet, route shortened by one hop) or one drop report delivered at the instant of arrival to the packet's own callback; control packets are never dropped; nothing is held at quiescence.", "3.10"),
+ "C05": ("tcp", "exploration", "deterministic simulation with fault injection: keyed byte streams under scripted drops/delays, plus a small exhaustive fault sweep",
+         "Seeded search over write/read size sequences, scatter/gather layouts, wait_read+non-blocking reads, closes and reconnects on reused socket objects, route configurations (1-3 queue hops per direction, some finite) and fault scripts of a sink on each direction that drops the n-th droppable segment (notifying the sender) or delays the n-th packet (reordering data, ACKs, SYN/SYN-ACK and EOF). Every delivered byte is checked against its offset in the offered stream, EOF placement against what was written before the peer closed, and stale data on reuse; thorough adds all 3^7 pass/drop/delay assignments to the first 7 segments of a fixed transfer.", "3.5"),
+ "C06": ("tcp", "exploration", "deterministic simulation: bulk transfers through tail-dropping queues, bounded liveness judged at quiescence",
+         "Seeded search over route configurations (1-3 hops each way; bandwidth 0 or 5 kB/s-50 MB/s; latency 0-500 ms; capacity unlimited or from one segment to 4 MB; bottleneck at either end or in the middle), transfer lengths up to 2 MB and write/read size patterns, drops produced only by the queues. Whenever run() returns on its own with both sockets open: delivered == accepted, no write pending, every offered byte accepted; a watchdog reports livelock; connects with an accept outstanding complete.", "3.6"),
+ "C20": ("tcp", "exploration", "deterministic simulation: per-pair MTU tables with probes on every hop, UDP don't-fragment states",
+         "Seeded search over path-MTU values 64-9000, TCP transfers in both directions with write sizes around multiples of the MTU (probes on every hop: no segment above the MTU, every segment identical at every hop to one the sender transmitted) and UDP sends of MTU-2..MTU+2 / 65535 / small with don't-fragment never touched, set through IP_MTU_DISCOVER or IP_DONTFRAGMENT, or cleared, over a loss-free route so that exactly the expected datagrams must arrive whole.", "3.20"),
 }
 
 NOT_YET = "not claimed yet: the engine for this property is still under construction in this tree"
